@@ -295,6 +295,35 @@ func c10(c *Ctx) {
 		}
 	})
 
+	c.Rule("C10.R2b", "exhaustive matching: every tag is tested against every drop-tags pattern of every satisfied filter - the loops over the filters, over a filter's drop-tags and over the metric's tags are left only on exhaustion (or by the drop-metric return)", 3, func(r *Rule) {
+		if uf == nil {
+			r.Unresolved("(*TagHandler).uniqueFilterAndAddTags")
+			return
+		}
+		n := 0
+		for _, b := range uf.Blocks {
+			if b.Comment != "rangeindex.loop" && b.Comment != "rangeiter.loop" && b.Comment != "for.loop" {
+				continue
+			}
+			if loopBody(b) == nil {
+				continue
+			}
+			n++
+			var bad []string
+			for _, e := range earlyExits(b) {
+				// accepted: the drop-metric exit, an edge to a block that returns the constant false
+				if ret, ok := e[1].Instrs[len(e[1].Instrs)-1].(*ssa.Return); ok && len(e[1].Instrs) == 1 && len(ret.Results) == 1 {
+					if cst, ok := ret.Results[0].(*ssa.Const); ok && cst.Value != nil && cst.Value.String() == "false" {
+						continue
+					}
+				}
+				bad = append(bad, fmt.Sprintf("block %d -> block %d", e[0].Index, e[1].Index))
+			}
+			r.Check(fmt.Sprintf("uniqueFilterAndAddTags:loop#%d:exhaustive", n), len(bad) == 0, loopPos(b), "loop is left only on exhaustion or through 'return false' (drop-metric)"+map[bool]string{true: "", false: "; early exits: " + strings.Join(bad, ", ")}[len(bad) == 0])
+		}
+		r.Check("uniqueFilterAndAddTags:three-loops", n == 3, uf.Pos(), fmt.Sprintf("%d loops (filters, drop-tags patterns, tags)", n))
+	})
+
 	c.Rule("C10.R3", "static tags and de-duplication: every surviving metric's tags are the unique union of its tags and the static tags minus the dropped ones, computed with a fresh scratch set", 5, func(r *Rule) {
 		if uf == nil {
 			r.Unresolved("uniqueFilterAndAddTags")
@@ -485,3 +514,19 @@ func stripLoad(v ssa.Value) ssa.Value {
 
 // reachesOnlyVia: every path from `from` to `to` that does not pass `head` ... (conservative: false)
 func reachesOnlyVia(from, to, head *ssa.BasicBlock) bool { return false }
+
+func loopPos(b *ssa.BasicBlock) token.Pos {
+	for _, in := range b.Instrs {
+		if in.Pos() != token.NoPos {
+			return in.Pos()
+		}
+	}
+	for _, s := range b.Succs {
+		for _, in := range s.Instrs {
+			if in.Pos() != token.NoPos {
+				return in.Pos()
+			}
+		}
+	}
+	return b.Parent().Pos()
+}
